@@ -29,7 +29,7 @@ Star == 42
 IsDigit(b) == b >= 48 /\ b <= 57
 
 MaxNesting == 128       \* MAX_NESTING_DEPTH in frame.rs
-Huge == 1000000         \* stands for every length that exceeds any buffer in scope
+Huge == 2000000000        \* stands for every length that exceeds any buffer in scope
 
 Ok(next) == [kind |-> "ok", next |-> next]
 Inc == [kind |-> "inc", next |-> 0]
@@ -68,7 +68,7 @@ Canon(neg, digits) ==
 \* a length as a number, when it matters (it is compared with the bytes of a short buffer)
 RECURSIVE DigitsToNat(_, _)
 DigitsToNat(d, acc) == IF d = <<>> THEN acc ELSE DigitsToNat(Tail(d), acc * 10 + (Head(d) - 48))
-ToNat(v) == IF Len(v.digits) > 5 THEN Huge ELSE DigitsToNat(v.digits, 0)
+ToNat(v) == IF Len(v.digits) > 9 THEN Huge ELSE DigitsToNat(v.digits, 0)   \* (TLC integers are 32 bit)
 
 \* i64 -> decimal text as write_decimal prints it
 RECURSIVE NatDigits(_)
